@@ -195,6 +195,30 @@ func instrumentFile(path string, order, points bool, pkg string) (int, []byte) {
 		})
 	}
 	if points {
+		// `<x>.lock.Lock()` / `.RLock()` on a field whose name says lock or mutex -> verifhook.Lock(&<x>.lock): waiting
+		// for a mutex becomes visible to the cooperative scheduler
+		ast.Inspect(f, func(nd ast.Node) bool {
+			ce, ok := nd.(*ast.CallExpr)
+			if !ok || len(ce.Args) != 0 {
+				return true
+			}
+			sel, ok := ce.Fun.(*ast.SelectorExpr)
+			if !ok || (sel.Sel.Name != "Lock" && sel.Sel.Name != "RLock") {
+				return true
+			}
+			recv, ok := sel.X.(*ast.SelectorExpr)
+			if !ok {
+				return true
+			}
+			ln := strings.ToLower(recv.Sel.Name)
+			if !strings.Contains(ln, "lock") && !strings.Contains(ln, "mu") {
+				return true
+			}
+			ce.Fun = &ast.SelectorExpr{X: ast.NewIdent("verifhook"), Sel: ast.NewIdent(sel.Sel.Name)}
+			ce.Args = []ast.Expr{&ast.UnaryExpr{Op: token.AND, X: recv}}
+			n++
+			return true
+		})
 		for _, d := range f.Decls {
 			fd, ok := d.(*ast.FuncDecl)
 			if !ok || fd.Body == nil {
